@@ -138,6 +138,9 @@ fn plants(rng: &mut Rng, per_cell: usize) -> Vec<Plant> {
         ("unit-enum-with-content", "#[typeshare]\n#[serde(content = \"c\")]\npub enum Victim { A, B }\n".into()),
         // tag/content on an enum whose only data variants are skipped: what is shared is a unit enum
         ("unit-enum-after-skips-with-tag-and-content", "#[typeshare]\n#[serde(tag = \"t\", content = \"c\")]\npub enum Victim { A, #[serde(skip)] B(u8), #[typeshare(skip)] C { x: u8 } }\n".into()),
+        // the key's value does not matter: empty and blank keys are keys
+        ("unit-enum-with-empty-tag", "#[typeshare]\n#[serde(tag = \"\")]\npub enum Victim { A, B }\n".into()),
+        ("unit-enum-with-blank-content", "#[typeshare]\n#[serde(content = \" \")]\npub enum Victim { A, #[serde(skip)] B(u8) }\n".into()),
         ("unit-enum-with-tag-and-content", "#[typeshare]\n#[serde(tag = \"t\", content = \"c\")]\npub enum Victim { A, B }\n".into()),
         ("const-string", "#[typeshare]\npub const VICTIM: &str = \"text\";\n".into()),
         ("const-float", "#[typeshare]\npub const VICTIM: f64 = 1.5;\n".into()),
